@@ -463,7 +463,8 @@ impl RADAU {
                     scal[i] /= hhfac.powi(2);
                 }
             }
-            xph = x + h;
+            // The last step lands on xend itself: x + (xend - x) can miss it by a rounding error
+            xph = if last { xend } else { x + h };
 
             // Initialize stage increments and transforms
             if first {
